@@ -25,7 +25,8 @@
 (***************************************************************************)
 EXTENDS Integers, Sequences, FiniteSets, TLC, Json
 
-CONSTANTS MaxRows,    \* tables with 0..MaxRows rows are validated
+CONSTANTS MaxRows,    \* tables with 0..MaxRows rows are validated (clean, and in the legal presentations)
+          MaxDefRows, \* every single illegal deviation is applied to the tables with at most MaxDefRows rows
           MaxQRows    \* accepted tables with at most MaxQRows rows are also queried
 
 Legal == {"0", "1"}
@@ -96,7 +97,8 @@ Cases(rs) ==
     {[d |-> NoDefect, tb |-> tb]}
     \cup {[d |-> [NoDefect EXCEPT !.kind = "geo_index"], tb |-> [tb EXCEPT !.cols = Tail(BaseCols), !.index = "geo"]]}
     \cup {[d |-> [NoDefect EXCEPT !.kind = "extra_col"], tb |-> [tb EXCEPT !.cols = Append(BaseCols, "note")]]}
-    \cup {[d |-> [NoDefect EXCEPT !.kind = "missing", !.col = c], tb |-> [tb EXCEPT !.cols = Without(BaseCols, c)]]
+    \cup (IF n > MaxDefRows THEN {} ELSE
+         {[d |-> [NoDefect EXCEPT !.kind = "missing", !.col = c], tb |-> [tb EXCEPT !.cols = Without(BaseCols, c)]]
             : c \in Range(BaseCols)}
     \cup {[d |-> [NoDefect EXCEPT !.kind = "dupcol", !.col = c], tb |-> [tb EXCEPT !.cols = Append(BaseCols, c)]]
             : c \in Range(BaseCols)}
@@ -105,7 +107,7 @@ Cases(rs) ==
             : p \in {pp \in (1..n) \X (1..n) \X {"same", "other"} : pp[1] < pp[2]}}
     \cup {[d |-> [NoDefect EXCEPT !.kind = "badentry", !.i = p[1], !.j = p[2], !.tok = p[3]],
            tb |-> [tb EXCEPT !.rows[p[1]][p[2]] = p[3]]]
-            : p \in (1..n) \X (1..3) \X BadTokens}
+            : p \in (1..n) \X (1..3) \X BadTokens})
 RowSeqs == UNION {[1..n -> [1..3 -> Legal]] : n \in 0..MaxRows}
 AllCases == UNION {Cases(rs) : rs \in RowSeqs}
 
